@@ -177,7 +177,16 @@ func init() {
 				continue
 			}
 			// YAML marshalling carries the same data
-			yb, yerr := yaml.Marshal(r.p)
+			var yb []byte
+			var yerr error
+			func() {
+				defer func() {
+					if x := recover(); x != nil {
+						yerr = fmt.Errorf("panic: %v", x)
+					}
+				}()
+				yb, yerr = yaml.Marshal(r.p)
+			}()
 			if yerr != nil {
 				oracleFail("C03", "yaml-marshal-error", c, yerr.Error())
 				continue
